@@ -3,6 +3,7 @@ import Pycoin.Proofs.Bech32Poly
 import Pycoin.Proofs.ConvertBits
 import Pycoin.Proofs.Bech32Str
 import Pycoin.Proofs.Bech32Err
+import Pycoin.Proofs.ParseableStr
 /-!
 C11 — Base58, Base58Check and Bech32/Bech32m codecs are exact and detect corruption.
 Property theorems (Base58 half; the Bech32 half is in the second part of this file).
@@ -747,3 +748,29 @@ theorem C11_errdetect_any4_refuted : ¬ ErrDetect4 := by
 #guard (decode ['b', 'c'] "bc1zw508d6qejxtdg4y5r3zarvaryvqyzf3du".toList) matches none        -- non-zero padding
 
 end Pycoin.Bech32
+
+/-! # parseable_str: the per-string cache -/
+namespace Pycoin.Pstr
+open Pycoin
+
+/-- the cache keys read off the source (`Gen/PstrKeys.lean`) are pairwise different: the cache is keyed by decoder
+identity.  Fails to elaborate as soon as two decoders share a key. -/
+theorem C11_pstr_keys_distinct : ∀ d d', key d = key d' → d = d' := by
+  intro d d'
+  cases d <;> cases d' <;> first | (intro _; rfl) | (intro h; exact absurd h (by decide))
+
+/-- **cache transparency.** Whatever decoders (`parse_b58`, `parse_b58_double_sha256`, the Groestlcoin
+`parse_b58_groestl`, `parse_bech32`) are applied, in whatever order and however often, to ONE `parseable_str`
+object starting from an empty cache, every answer is the answer the decoder gives on a fresh string. -/
+theorem C11_pstr_cache_transparent (tb : Bytes) (tc : List Char) (steps : List Dec) :
+    runSeq tb tc steps [] = steps.map (fun d => pure d tb tc) :=
+  runSeq_spec C11_pstr_keys_distinct tb tc steps [] (inv_nil tb tc)
+
+/-- the uncached `parse_b58_double_sha256` is the decoder of the Base58 half (and hence accepts exactly the strings
+`a2b_hashed_base58` accepts: `C11_parse_b58_agrees`) -/
+theorem C11_pstr_b58sha_is_hashed (tb : Bytes) (tc : List Char) :
+    pure .b58sha tb tc = .bytes (Base58.parseB58DoubleSha256 tb) := by
+  unfold pure checkHashed Base58.parseB58DoubleSha256
+  cases Base58.parseB58 tb <;> rfl
+
+end Pycoin.Pstr
